@@ -12,7 +12,77 @@ from .. import gen
 
 
 class C07Episode(Episode):
+    def setup_ini(self):
+        """the same daemon described by a configuration file (sockets with
+        their family / type spelt in any letter case), so that reloadconfig
+        of the unchanged file can be among the operations"""
+        from .. import ini
+        self.world = World(dict(self.cfg, want_fdtable=True))
+        d = self.world.scratch_dir()
+        socks = []
+        for i, sc in enumerate(self.cfg['sockets']):
+            ent = {'name': sc['name']}
+            if sc['kind'] == 'unix':
+                ent['path'] = os.path.join(d, 's%d.sock' % i)
+            else:
+                ent['host'] = '127.0.0.1'
+                ent['port'] = 0
+            if sc.get('family'):
+                ent['family'] = sc['family']
+            if sc.get('type'):
+                ent['type'] = sc['type']
+            socks.append(ent)
+        ws = []
+        for wc in self.cfg['watchers']:
+            o = wc['opts']
+            ent = {'name': wc['name'], 'cmd': wc['cmd'],
+                   'numprocesses': o['numprocesses'],
+                   'graceful_timeout': o['graceful_timeout'],
+                   'warmup_delay': int(o.get('warmup_delay', 0))}
+            if o.get('use_sockets'):
+                ent['use_sockets'] = True
+            if o.get('stdin_socket'):
+                ent['stdin_socket'] = o['stdin_socket']
+            ws.append(ent)
+            self.world.mix[wc.get('marker', wc['name'])] = wc.get('mix')
+        path = os.path.join(d, 'circus.ini')
+        with open(path, 'w') as f:
+            f.write(ini.render(circus={'check_delay': self.cfg.get(
+                'check_delay', 1.0)}, watchers=ws, sockets=socks))
+        a = self.world.build_from_ini(path)
+        self.socks = {}
+        for sc in self.cfg['sockets']:
+            key = [k for k in a.sockets
+                   if k.lower() == sc['name'].lower()][0]
+            sk = a.sockets[key]
+            rec = {'sock': sk, 'bind': 0, 'listen': 0, 'close': 0,
+                   'kind': sc['kind'], 'reuseport': False, 'name': key}
+            self.socks[sc['name'].lower()] = rec
+            for meth in ('bind', 'listen', 'close'):
+                orig = getattr(sk, meth)
+
+                def wrapped(*a_, _o=orig, _r=rec, _m=meth, **kw):
+                    _r[_m] += 1
+                    return _o(*a_, **kw)
+                setattr(sk, meth, wrapped)
+        self.finish_setup()
+
+    def finish_setup(self):
+        self.world.kernel.on_spawn = self.on_spawn
+        self.spec = dict((wc.get('marker', wc['name']), wc)
+                         for wc in self.cfg['watchers'])
+        self.world.kernel.preexec_filter = lambda p: bool(
+            (self.spec.get(p.marker) or {}).get('opts', {}).get(
+                'stdin_socket'))
+        self.generations = {}
+        self.on_quiet.append(C07Episode.check_quiet)
+
     def setup(self):
+        self.clients = []
+        self.lsocks = []
+        self.pending_conn = False
+        if self.cfg.get('from_ini'):
+            return self.setup_ini()
         from circus.sockets import CircusSocket
         self.world = World(dict(self.cfg, want_fdtable=True))
         d = self.world.scratch_dir()
@@ -156,6 +226,13 @@ class C07Episode(Episode):
             if 'ino' not in rec or rec.get('reuseport'):
                 continue
             self.probes['socket_liveness_checked'] += 1
+            if 'name' in rec:
+                cur = w.arbiter.sockets.get(rec['name'])
+                if cur is not rec['sock']:
+                    self.viol('socket_replaced', 'socket %s: the daemon now '
+                              'holds another socket object than the one it '
+                              'bound at start-up' % name, once=name)
+                    continue
             if rec['bind'] != 1 or rec['listen'] != 1:
                 self.viol('socket_rebound', 'socket %s: bind called %d '
                           'times, listen %d times' % (name, rec['bind'],
@@ -272,7 +349,35 @@ class C07(Prop):
                     wc['cmd'] += ' --fd-%s=$(circus.sockets.%s)' % (n, n)
         n = rng.choice([2, 4, 6, 8]) if tier == 'quick' else \
             rng.choice([6, 10, 16, 24])
-        ops = gen.gen_history(rng, cfg, n, self.REQS, None, quiet_p=0.6)
+        reqs = self.REQS
+        if rng.random() < 0.2:
+            # described by a configuration file; reloading the unchanged
+            # file must not touch the sockets either
+            cfg['from_ini'] = True
+            cfg['sockets'] = [s for s in cfg['sockets']
+                              if not s.get('reuseport')]
+            for sc in cfg['sockets']:
+                fam = 'AF_UNIX' if sc['kind'] == 'unix' else 'AF_INET'
+                x = rng.random()
+                if x < 0.6:
+                    sc['family'] = rng.choice([fam, fam.lower(),
+                                               fam.title()])
+                if rng.random() < 0.3:
+                    sc['type'] = rng.choice(['SOCK_STREAM', 'sock_stream'])
+            for wc in cfg['watchers']:
+                wc['opts']['warmup_delay'] = int(wc['opts']['warmup_delay'])
+                if wc['opts'].get('stdin_socket'):
+                    # (section names are lower-cased by the configuration
+                    # reader; stdin_socket is looked up as written)
+                    wc['opts']['stdin_socket'] = \
+                        wc['opts']['stdin_socket'].lower()
+            reqs = self.REQS + ['reloadconfig', 'reloadconfig']
+        ops = gen.gen_history(rng, cfg, n, reqs, None, quiet_p=0.6)
+        for op in ops:
+            if op['op'] == 'req' and op['cmd'] == 'reloadconfig':
+                op['w'] = None
+                op['props'] = {}
+                op['waiting'] = True
         return {'cfg': cfg, 'ops': ops}
 
     def run(self, case):
